@@ -29,15 +29,33 @@ Section CondApi.
 Variable T : table.
 Variable specs : list ispec.
 
+(** info.getValidIndexes / NewEqualityCondition use [col_nondefault];
+    RowCache.indexUsable is [usable] (Cache/Index.v) *)
+Notation col_nondefault := (col_nondefault T).
+Notation ck_usable := (ck_usable T).
+Notation usable := (usable T).
+
+Fixpoint first_usable_hit (mvals : row) (sm : list (ispec * idx1)) : option (gset sym) :=
+  match sm with
+  | [] => None
+  | (s, m) :: sm' =>
+      if usable s mvals then
+        match m !! K T s mvals with
+        | Some us => Some us
+        | None => first_usable_hit mvals sm'
+        end
+      else first_usable_hit mvals sm'
+  end.
+
 (** RowCache.rowsByModels (client indexes allowed), one model at a time into
-    the accumulated result map: by UUID when the model has one, the row
-    exists and is not in the result yet; otherwise through the first index
-    that has an entry for the model's value *)
+    the accumulated result map: by UUID when the model has one and the row
+    exists; otherwise through the first index that is usable for the model
+    and has an entry for the model's value *)
 Definition rbm_step (c : rc) (acc : gset sym) (m : option sym * row) : gset sym :=
-  let by_index := default ∅ (first_index_hit T true m.2 (zip specs (rc_idx c))) in
+  let by_index := default ∅ (first_usable_hit m.2 (zip specs (rc_idx c))) in
   match m.1 with
   | Some u =>
-      if bool_decide (u ∉ acc) && bool_decide (is_Some (rc_rows c !! u)) then acc ∪ {[u]}
+      if bool_decide (is_Some (rc_rows c !! u)) then acc ∪ {[u]}
       else acc ∪ by_index
   | None => acc ∪ by_index
   end.
@@ -47,13 +65,6 @@ Definition matches (c : rc) (cd : conditional) : gset sym :=
   | CModels ms => foldl (rbm_step c) ∅ ms
   | CExplicit any => ⋃ (rows_by_condition T specs c <$> any)
   | CPredicate cs => dom (filter_rows (rc_rows c) cs)
-  end.
-
-(** info.getValidIndexes / NewEqualityCondition *)
-Definition col_nondefault (m : row) (col : sym) : bool :=
-  match find_col T col, m !! col with
-  | Some C, Some v => negb (bool_decide (v = default_value (c_ty C)))
-  | _, _ => false
   end.
 
 Definition model_eq_conds (m : option sym * row) : option (list cond) :=
